@@ -12,7 +12,9 @@ RULE = (
     "(a) the same Hypothesis stream of synthetic port models x kernels as C01, each analysed under uniform, "
     "one and two balancing passes; oracle: bottleneck_opt <= bottleneck_uniform and bottleneck_opt >= exact "
     "fractional optimum (max over unions S of port sets of cycles confined to S / |S|, minimised over "
-    "alternative assignments) minus the rounding tolerance; (b) the bounded family enumerated completely: "
+    "alternative assignments) minus the rounding tolerance; (b) the bounded family enumerated completely (and every 9th kernel of it - thorough: every kernel - also "
+    "through the CLI, 'osaca --arch A FILE' with the family's model as a user model file, so that the CLI's own "
+    "orchestration of the two passes is what is measured): "
     "every ordered kernel of length <=4 over the 7 one-cycle single-micro-op forms on the non-empty subsets "
     "of 3 ports and of length <=3 over those plus the 7 two-cycle forms (5355 kernels), two passes as the "
     "CLI: |bottleneck - optimum| within [-0.01, 0.15]. Non-trivial: the exact optimum is more than 0.01 "
@@ -180,9 +182,62 @@ def check_family_kernel(kern, ctx=None):
                        "optimum": opt}, "gap": b2 - opt}
 
 
+# ---------------------------------------------------------------- the bounded family through the CLI
+_CLI = {}
+
+
+def family_cli_setup():
+    """the family's model under the name of a shipped micro-architecture in a data directory that precedes the
+    package data (as a user's ~/.osaca/data would), so that 'osaca --arch zen1 FILE' - the CLI with its own
+    orchestration of the balancing passes - analyses family kernels"""
+    if _CLI:
+        return
+    import tempfile
+    from osaca import utils
+
+    d = tempfile.mkdtemp(prefix="verif-c02-data-")
+    top = ports.model_yaml({"ports": PORTS3, "forms": family_forms()})
+    top["arch_code"] = "zen1"
+    with open(os.path.join(d, "zen1.yml"), "w") as fh:
+        fh.write(synth.yaml_doc(top))
+    utils.DATA_DIRS.insert(0, d)
+    _CLI["dir"] = d
+
+
+def check_family_kernel_cli(kern):
+    from lib import cli, report
+
+    family_cli_setup()
+    forms = family_forms()
+    text = "".join("%s %%rax, %%rbx\n" % forms[k]["name"] for k in kern)
+    uops = [u for k in kern for u in ports.norm_uops(forms[k]["port_pressure"])]
+    opt = ports.exact_optimum(uops)
+    b_uni = max(sum(c / len(ps) for c, ps in uops if q in ps) for q in PORTS3)
+    out, _, _ = guard(cli.run_inprocess, ["--arch", "zen1", "--ignore-unknown"], text, what="osaca --arch zen1")
+    try:
+        rep = report.parse(out)
+        tot = [float(x) if x != "" else 0.0 for x in rep["summary"]["cells"]]
+    except (report.ReportError, TypeError, KeyError, ValueError) as e:
+        raise Violation("family-cli:report", "CLI report of a family kernel cannot be read: %r" % (e,), out[-400:], None)
+    b = max(tot)
+    if b > b_uni + 0.005 + 1e-9:
+        raise Violation("family-cli:worse-than-uniform", "bottleneck reported by the CLI exceeds uniform", b, b_uni)
+    if b < opt - 0.01 - 0.005 - 1e-9:
+        raise Violation("family-cli:undercut", "bottleneck reported by the CLI undercuts the exact optimum by more than "
+                        "the rounding step", b, opt)
+    if b - opt > 0.15 + 0.005 + 1e-9:
+        raise Violation("family-cli:gap", "bottleneck reported by the CLI (two passes as it runs them) more than 0.15 "
+                        "above the exact optimum", b, opt)
+    return {"nontrivial": opt < b_uni - 0.01, "classes": ["family-through-cli"], "key": ["family-cli", list(kern)],
+            "sample": {"family_kernel_cli": [forms[k]["name"] for k in kern], "uniform": b_uni, "cli": b,
+                       "optimum": opt}}
+
+
 def plan(tier, seed):
     n = {"quick": 400, "thorough": 6000}[tier]
     shards = [{"kind": "family", "i": i, "of": 6} for i in range(6)]
+    shards += [{"kind": "family-cli", "i": i, "of": 4, "stride": 9 if tier == "quick" else 1, "seed": seed}
+               for i in range(4)]
     shards += [{"kind": "synthetic", "seed": seed * 1000 + 100 + i, "n": n,
                 "max_len": 12 if tier == "quick" or i % 2 else 40} for i in range(10)]
     return shards
@@ -214,6 +269,20 @@ def run_shard(spec):
         return {"stats": stats.to_dict(), "failures": list(failures.values()), "exhaustive": True,
                 "extra": {"family_kernels": len(mine), "family_gap_max_%d" % spec["i"]: round(gmax, 4),
                           "family_gap_min_%d" % spec["i"]: round(gmin, 4)}}
+    if spec["kind"] == "family-cli":
+        kernels = family_kernels()[spec["seed"] % spec["stride"]::spec["stride"]][spec["i"]::spec["of"]]
+        failures = {}
+        for kern in kernels:
+            case = {"family_kernel_cli": list(kern)}
+            try:
+                info = check_family_kernel_cli(kern)
+            except Violation as v:
+                stats.evaluations += 1
+                if v.bucket not in failures:
+                    failures[v.bucket] = failure_record(ID, case, v)
+                continue
+            stats.record(case, info)
+        return {"stats": stats.to_dict(), "failures": list(failures.values()), "exhaustive": spec["stride"] == 1}
     strat = ports.port_cases(max_len=spec["max_len"], modes=("opt2",))
     failures = hyp_search(ID, strat, check_case, stats, seed=spec["seed"], max_examples=spec["n"])
     runner().close()
@@ -223,6 +292,8 @@ def run_shard(spec):
 def replay(case):
     if "family_kernel" in case:
         return check_family_kernel(tuple(case["family_kernel"]))
+    if "family_kernel_cli" in case:
+        return check_family_kernel_cli(tuple(case["family_kernel_cli"]))
     return check_case(case)
 
 
